@@ -16,16 +16,16 @@ CLAIMED = {
          "Seeded histories that add second edges with smaller / equal / larger weight under KeepFirst / KeepLast / multi-edge; after every step the hop-1 sets, weighted single-source distances, weighted closeness and betweenness equal the definitions evaluated on the real graph's own edge list, and (hook) the traversal lists hold exactly (neighbour, min stored weight). Sampled (8e4 / 1.5e6 histories); the simulator contributes exact replay (explicit case + keying/schedule), delta-debugging minimisation, hang containment by the step clock and coverage accounting.",
          "Trusted: Floyd-Warshall oracle; weighted betweenness compared only under exactly summable weights.", "DESIGN.md §4 C03"),
  "C04": ("exploration", "deterministic simulation: seeded graphs x simulated rayon pools (1-16 workers, seeded split tree / steals / leaf order) x hash keying, results vs Floyd-Warshall + path-count + explicit path enumeration oracle",
-         "single_source / multi_source / all_pairs on graphs of every kind (n <= 60) under simulated pools: reachable set, exact distances, path validity, number of paths = sigma(s,t), path set = enumeration for n <= 9. The simulator-specific dimension is thin here (schedule and keying are part of the replay file); most of the deciding power is the seeded workload plus the reference oracle. Sampled.",
-         "Trusted: the distance oracle. Path sets only under dyadic positive weights / hop counts.", "DESIGN.md §4 C04"),
+         "single_source / multi_source / all_pairs on graphs of every kind (n <= 60, and dense graphs of up to 12 500 edges) under simulated pools: reachable set, exact distances, path validity, number of paths = sigma(s,t), path set = enumeration for n <= 9. The simulator-specific dimension is thin here (schedule and keying are part of the replay file); most of the deciding power is the seeded workload plus the reference oracle. Sampled.",
+         "Trusted: the distance oracle. Path sets compared exactly under exactly summable positive weights / hop counts; under inexactly summable weights the path count per pair must fit the accumulated-float reading or the 1e-9 reading of \"shortest\" (DESIGN.md App. E 16).", "DESIGN.md §4 C04"),
  "C05": ("exploration", "deterministic simulation: seeded graphs under simulated rayon pools and hash keyings, betweenness vs its definition from Floyd-Warshall distances and path counts",
-         "betweenness_centrality(weighted x normalized) on graphs of every kind (n <= 45) vs the definition at 1e-9, one entry per node; simulated pool of 1-16 workers above 20 nodes. Thin simulator dimension (schedule + keying in the replay file); sampled.",
-         "Trusted: the definition oracle; weighted runs use positive dyadic weights (exact ties).", "DESIGN.md §4 C05"),
+         "betweenness_centrality(weighted x normalized) on graphs of every kind (n <= 45, diamond chains with > 2^64 shortest paths, dense graphs of up to 12 500 edges) vs the definition at 1e-9, one entry per node; simulated pool of 1-16 workers above 20 nodes. Thin simulator dimension (schedule + keying in the replay file); sampled.",
+         "Trusted: the definition oracle (pair-sum definition; Brandes accumulation over the accumulated-float fixpoint for inexactly summable weights, where the whole vector must match that reading or the 1e-9 reading).", "DESIGN.md §4 C05"),
  "C06": ("exploration", "deterministic simulation: seeded graphs under simulated rayon pools and hash keyings, closeness vs its definition from incoming Floyd-Warshall distances",
          "closeness_centrality(weighted x wf_improved) on graphs of every kind (n <= 50) vs the definition at 1e-9; simulated pool above 20 nodes. Thin simulator dimension; sampled.",
          "Trusted: the definition oracle.", "DESIGN.md §4 C06"),
  "C07": ("exploration", "deterministic simulation: seeded search over rayon schedules (simulated work-stealing scheduler patched in for rayon: pool size, split tree, steals, leaf order, caller-installed nested pools) with bit-exact comparison against the single-threaded run; plus real-rayon engines (native pools, concurrent readers; Miri seeded scheduler + race detector in the thorough tier)",
-         "The property the technique is for: for graphs of 21-60 nodes each of the five functions is evaluated with one worker and under 6-9 simulated schedules per case (2.1e4 schedules quick, 1e6 thorough); every key set, distance, path list and centrality must be bit-identical. Any violation found by the stub is a schedule real rayon can produce. Supporting engines run the real rayon: native pools of 1-16 threads with concurrent readers on one shared graph, and (thorough) Miri with seeded preemptive scheduling and data-race detection.",
+         "The property the technique is for: each of the five functions is evaluated with one worker and under 6-9 simulated schedules per case (2.1e4 schedules quick, 3.6e5 thorough; graphs of 21-60 nodes, 1 in 60 with 1 030-1 300 nodes, 1 in 400 dense with up to 12 500 edges); every key set, distance, path list and centrality must be bit-identical. Any violation found by the stub is a schedule real rayon can produce. Supporting engines run the real rayon: native pools of 1-16 threads with concurrent readers on one shared graph, and (thorough) Miri with seeded preemptive scheduling and data-race detection.",
          "The stub executes whole closures; a data race inside two overlapping closures is invisible to it (graphrs has no unsafe / interior mutability: scanned every run). The native engine's schedule is not controlled (cross-check only).", "DESIGN.md §2.2, §4 C07"),
  "C08": ("exploration", "deterministic simulation: metamorphic relations of the shortest-path entry points and options (implementation against itself), serial single_source vs simulated-parallel all_pairs / multi_source",
          "all_pairs = multi_source = single_source; every combination of target x cutoff x first_only x with_paths restricts the unrestricted answer without changing values; fast path vs full algorithm; symmetry; triangle inequality; get_all_shortest_paths_involving. No oracle error possible (relations only). Thin simulator dimension (the parallel path runs under a simulated pool); sampled.",
@@ -43,7 +43,7 @@ CLAIMED = {
          "is_partition vs the set-theoretic definition on partitions and 8 kinds of non-partition; modularity (weighted/unweighted, resolutions) vs Newman's formula from the stored edge list at 1e-9, NotAPartition otherwise. Thin simulator dimension; sampled.",
          "Families with empty sets are partitions iff their non-empty sets are.", "DESIGN.md §4 C12"),
  "C13": ("exploration", "deterministic simulation: Louvain under a logical step clock (allocation budget = bounded-liveness check, replayable because the count is a function of the seed) x 4-8 hash keyings x seeds; nestedness and modularity monotonicity vs the harness's own Newman formula",
-         "Every louvain call on graphs of all kinds (cycles, paths, stars, cliques, bipartite, unions; n <= 40) runs under a step budget: exceeding it is reported as non-termination with a replay file; Ok results are checked for partition, nesting, non-decreasing modularity, communities = last level. Termination cannot be proven by sampling; the budget makes it a bounded, replayable check.",
+         "Every louvain call on graphs of all kinds (cycles, paths, stars, cliques, bipartite, unions, rings of cliques, hubs with nearly tied alternatives; n <= 40, rings of 60-120 nodes, dense graphs of up to 12 500 edges; weights incl. 1e-17-scale and overflowing sums) runs under a step budget: exceeding it is reported as non-termination with a replay file; Ok results are checked for partition, nesting, non-decreasing modularity, communities = last level. Termination cannot be proven by sampling; the budget makes it a bounded, replayable check.",
          "Budget 3e5 + 3e4 (n+m) allocations; max observed / budget recorded in the evidence.", "DESIGN.md §2.3, §4 C13"),
  "C14": ("exploration", "deterministic simulation: seeded graphs with adversarial Unicode names and f64 bit patterns, write -> read under 3-5 hash keyings (document edge order is hash order), string and file variants",
          "Round trip of graphs of every kind: names in order, directedness, edge multiset with bit-identical weights, parallel-edge order, file = string document. Thin simulator dimension (keying); the file system is real and fault-free. Sampled (4e4 / 1e6 graphs).",
@@ -106,7 +106,7 @@ def main():
         ],
         "checks": checks,
         "not_applicable": na,
-        "notes": "All checks: exit 0 held / 1 violation (VIOLATION line + replay file under /verif/replays) / 2 harness error. VERIF_SEED shifts the whole sample (default 20261002). Known findings: /verif/known_findings.json.",
+        "notes": "Thorough tier of every check except C07 first runs a quarter of the quick sample against the real rayon (OS threads; runtime observation, cross-check only, summary embedded in the evidence), then the deciding simulated run. All checks: exit 0 held / 1 violation (VIOLATION line + replay file under /verif/replays) / 2 harness error. VERIF_SEED shifts the whole sample (default 20261002). Known findings: /verif/known_findings.json.",
     }
     json.dump(m, open("/verif/MANIFEST.json", "w"), indent=1)
     print("MANIFEST.json: %d claimed, %d not applicable" % (len(checks), len(na)))
